@@ -42,6 +42,14 @@ func driveMux(c *hx.Ctx) error {
 	maxp := maxPayload(c.Repo)
 	var scns []scenario
 	var streams []string
+	for _, sc := range corpus(c, "C10") {
+		scns = append(scns, sc)
+		if sc.X.ByteLevel {
+			streams = append(streams, "mux_bytes")
+		} else {
+			streams = append(streams, "mux_sizes")
+		}
+	}
 
 	// --- byte level: small payloads, everything compared inside Coq
 	r := c.Rand("mux_bytes")
